@@ -580,6 +580,7 @@ func (p *c10prop) Plan(tier string, seed int64) []core.Segment {
 		{Kind: fmt.Sprintf("exh3:%d:%d", l3, mm), N: exhCount(3, l3), Exhaustive: true},
 		{Kind: "corpus:family", N: 500},
 		{Kind: "family", N: fam},
+		{Kind: "pipeline", N: 400 * tierScale(tier, 20), Chunk: 10},
 	}
 }
 
@@ -603,6 +604,39 @@ func (p *c10prop) Gen(kind string, idx int64, seed int64, tier string) core.Case
 			s = 0
 		}
 		r := core.Rand(s, p.id, kind, idx)
+		if class == "" && kind == "pipeline" {
+			// Sort -> LCP -> Segments as the optimizing parser uses them, on
+			// texts of 100-900 bytes with repeats of 20-300 bytes (planted
+			// copies, B*-shaped texts, source text) and large maxLen
+			n := 100 + r.Intn(800)
+			var t []byte
+			f := []string{"bstar", "lzsynth", "text", "fib", "rand2", "planted"}[r.Intn(6)]
+			switch f {
+			case "bstar":
+				t = bstarText(r, n)
+				if len(t) > 1000 {
+					t = t[:1000]
+				}
+			case "planted":
+				t = gen.Family(r, "rand16", n, gen.Hint{})
+				for k := 0; k < 1+r.Intn(6); k++ {
+					l := 17 + r.Intn(60)
+					if r.Intn(4) == 0 {
+						l = 24 + r.Intn(300)
+					}
+					a, b := r.Intn(n), r.Intn(n)
+					for j := 0; j < l && a+j < n && b+j < n; j++ {
+						t[b+j] = t[a+j]
+					}
+				}
+			default:
+				t = gen.Family(r, f, n, gen.Hint{Window: 300, Block: 100, MinMatch: 3})
+			}
+			mn := r.Intn(6)
+			mx := mn + []int{0, 1, 16, 17, 40, 273, 1000}[r.Intn(7)]
+			sc = SfxCase{Text: t, Family: "pipeline:" + f, Min: mn, Max: mx}
+			return core.MkCase(p.id, kind, idx, seed, tier, sc)
+		}
 		n := r.Intn(1 + r.Intn(160))
 		f, t := gen.Bytes(r, n, gen.Hint{Window: 16, Block: 8, MinMatch: 2})
 		if r.Intn(3) == 0 {
@@ -656,7 +690,21 @@ func checkSegments(t []byte, lcpM [][]int16, minLen, maxLen int, mode int, st *c
 		lcp = arena[:n]     // capacity reaches into sa
 		sa = arena[n : 2*n] // capacity reaches into the canaries
 	}
-	sortInPlace := mode == 1
+	if mode == 4 {
+		// the inputs come from the library itself, as in osap.go
+		sa = make([]int32, n)
+		for i := range sa {
+			sa[i] = -3
+		}
+		lcp = make([]int32, n)
+		if pv := call(func() {
+			suffix.Sort(t, sa)
+			suffix.LCP(t, sa, nil, lcp)
+		}); pv != nil {
+			return "pipeline-panic", fmt.Sprintf("suffix.Sort/LCP panic: %v", pv)
+		}
+	}
+	sortInPlace := mode == 1 || mode == 4
 	var cbs []segCB
 	if pv := call(func() {
 		suffix.Segments(sa, lcp, minLen, maxLen, func(m int, seg []int32) {
@@ -809,12 +857,15 @@ func (p *c10prop) Run(c *core.Case, st *core.Stats) []core.Violation {
 		}
 	}
 	run := func(mn, mx int) []core.Violation {
-		for mode := 0; mode < 4; mode++ {
+		for mode := 0; mode < 5; mode++ {
+			if len(t) > 250 && mode != 4 && mode != 0 {
+				continue // long texts: naive inputs and the library's pipeline
+			}
 			class, msg := checkSegments(t, lm, mn, mx, mode, st)
 			st.Inc("segments_calls")
 			st.Inc(fmt.Sprintf("segments_calls_mode%d", mode))
 			if class != "" {
-				return []core.Violation{core.V(c, class, "text %q minLen=%d maxLen=%d (mode %d: 0 callback copies, 1 callback sorts in place, 2 lcp and sa share one allocation, 3 callback calls Segments itself): %s", t, mn, mx, mode, msg)}
+				return []core.Violation{core.V(c, class, "text %q minLen=%d maxLen=%d (mode %d: 0 callback copies, 1 callback sorts in place, 2 lcp and sa share one allocation, 3 callback calls Segments itself, 4 suffix array and LCP table from suffix.Sort and suffix.LCP): %s", t, mn, mx, mode, msg)}
 			}
 		}
 		return nil
@@ -846,5 +897,5 @@ func init() {
 	core.Register(&c10prop{base{id: "C10", level: "exploration",
 		rule:        "exhaustive small scope: all texts over {a,b} up to length 12 (thorough 16) and over {a,b,c} up to length 7 (thorough 10), each with ALL 0 <= minLen <= maxLen <= 5 (thorough 6), plus seeded family texts up to 200 bytes with random (minLen, maxLen); Segments receives a naively computed suffix array and LCP table (independent of C09); each call runs in four modes: callback copies only / callback sorts the segment in place (as osap.go does) / lcp and sa are adjacent sub-slices of one allocation guarded by canaries / the callback calls Segments itself on another text; every clause is decided by brute force over all suffix pairs from a pairwise LCP matrix; non-trivial iff len(t) >= 3; distinct = distinct (text, bounds)",
 		assumptions: []string{"minLen > maxLen and negative bounds are outside the quantifier of C10 and are not executed"},
-		mandatory:   []string{"segments_calls", "pairs_checked", "texts_with_fall_and_rise_profile", "empty_text", "callbacks"}}})
+		mandatory:   []string{"segments_calls", "pairs_checked", "texts_with_fall_and_rise_profile", "empty_text", "callbacks", "segments_calls_mode4"}}})
 }
